@@ -223,6 +223,9 @@ def run(index, tier="quick", seed=0) -> Result:
     _copy1(res, index, lambda f: f['cls'] == 'ConvexPolyhedron' and f['top'] in ('_compute_inertia_tensor', '_calculate_signed_volume', '_centroid_from_triangulated_surface', '_find_face_centroids', 'get_face_area', '_find_triangle_array_area', 'inertia_tensor'))
     from ..refpoint import check_reference_point
     check_reference_point(res, index, 'ConvexPolyhedron')
+    # SYM-1: per-simplex integrands are (anti)symmetric in the corners of the simplex
+    from ..cornersym import report as _sym1
+    _sym1(res, index, [("ConvexPolyhedron", "_centroid_from_triangulated_surface"), ("ConvexPolyhedron", "_find_simplex_equations")])
     # MEAN-1: no exact measure is computed from an unweighted average of vertex coordinates (the vertex mean of a face /
     # of the solid is its centroid only for triangles, parallelograms, regular polygons and centrally symmetric solids)
     from ..interp import Interp as _Interp
